@@ -1993,3 +1993,15 @@ Proof.
   intros Hp El Ht Hd. unfold spec_get. replace (b_pfx (sp_base sp) =? DATATYPE_UNKNOWN) with false by (symmetry; apply N.eqb_neq; exact Hp).
   rewrite El, Ht, Hd. reflexivity.
 Qed.
+
+(* K-C10-8: Dump of a sessioned type while no session id is set lists every session's entries, under
+   keys that carry the session prefix (FromSessionKey returns the key unchanged for an empty id) *)
+Definition w_dump_nosess : list dbop :=
+  [OSetPrefix DATATYPE_STATE; OPut (s2b "b1") (s2b "v1"); OSetSession (s2b "x"); OPut (s2b "a1") (s2b "v2");
+   OSetSession []].
+Theorem fs_refuted_dump_without_session :
+  exists ops p, fs_hist_ok false spec_init ops = true /\ forallb put_key_nonempty ops = true
+    /\ dump_ok (ref_state ops) = false
+    /\ fs_dump false (fs_state false ops) p = DDump [(s2b "b1", s2b "v1"); (s2b "x.a1", s2b "v2")]
+    /\ spec_dump (ref_state ops) p = DDump [(s2b "b1", s2b "v1")].
+Proof. exists w_dump_nosess, []. vm_compute. repeat split. Qed.
